@@ -1,8 +1,11 @@
 #!/usr/bin/env python3
-"""Tiny mutation sweep: single-token mutants of the production files, judged by `gvc all` (whole repository, both
-build variants, against the obligation baselines). Usage: mutate.py <worker-index> <n-workers> <sample-size> <seed>"""
+"""Tiny mutation sweep: single-token mutants and single-statement deletions of the production files, judged by
+`gvc all` (whole repository, both build variants, against the obligation baselines); a mutant inside a function under
+contract is first tried against that function alone (a failure there is a kill, found in seconds).
+Usage: mutate.py <worker-index> <n-workers> <sample-size> <seed> [ops: all|token|delete]"""
 import re, os, sys, random, subprocess, json, shutil
 W,N,K,SEED=int(sys.argv[1]),int(sys.argv[2]),int(sys.argv[3]),int(sys.argv[4])
+OPS=sys.argv[5] if len(sys.argv)>5 else 'all'
 REPO='/repo'
 ENV=dict(os.environ, GOFLAGS='-mod=mod', GOPROXY='off')
 files=[f for f in subprocess.run("git ls-files '*.go'",shell=True,cwd=REPO,capture_output=True,text=True).stdout.split()
@@ -11,6 +14,9 @@ ops=[(r' == ',' != '),(r' != ',' == '),(r' < ',' <= '),(r' <= ',' < '),(r' > ','
      (r'\bif !',r'if '),(r'\breturn err\b','return nil'),(r' \+ 1\b',' - 1'),(r' - 1\b',' + 1'),(r'\btrue\b','false'),(r'\bfalse\b','true'),
      (r'\bcontinue\b','break'),(r'\+= ',' = ')]
 muts=[]
+LOCKFUNCS=set()
+for l in open('/verif/obligations.lock'):
+    for m in re.finditer(r'"(?:tinywasm:)?([\w\.\[\]#]+?)/',l): LOCKFUNCS.add(m.group(1))
 for f in files:
     lines=open(os.path.join(REPO,f)).read().split('\n')
     infunc=False
@@ -18,6 +24,10 @@ for f in files:
         s=l.strip()
         if s.startswith('//') or s.startswith('import') or s.startswith('"') or s.startswith('package') or 'Usage:' in l or 'Name:' in l or 'Aliases' in l: continue
         code=l.split('//')[0]
+        # statement deletion: a call statement, a defer, or a plain assignment on one line
+        if OPS in('all','delete') and l.startswith('\t') and re.match(r'^(defer .*\)|[\w\.\[\]\*]+\(.*\)|[\w\.\[\]]+ (=|\+=) [^{]*|[\w\.]+\+\+)$',s) and not s.startswith('return') and not s.startswith('func'):
+            muts.append((f,i,0,len(l),'','DELETE'))
+        if OPS=='delete': continue
         for pat,rep in ops:
             for m in re.finditer(pat,code):
                 # skip matches inside string literals (rough)
@@ -33,7 +43,7 @@ for f,i,a,b,rep,pat in mine:
     path=os.path.join(work,f)
     orig=open(path).read()
     lines=orig.split('\n')
-    newline=lines[i][:a]+ (re.sub(pat,rep,lines[i][a:b]) if '\\' in rep else rep) + lines[i][b:]
+    newline=lines[i][:a]+ (re.sub(pat,rep,lines[i][a:b]) if '\\' in rep else rep) + lines[i][b:] if pat!='DELETE' else '\t// (deleted)'
     if newline==lines[i]: continue
     ml=lines[:]; ml[i]=newline
     open(path,'w').write('\n'.join(ml))
@@ -42,9 +52,23 @@ for f,i,a,b,rep,pat in mine:
     if b1.returncode!=0:
         rec['verdict']='does-not-compile'
     else:
-        r=subprocess.run('/verif/bin/gvc all -repo %s -verif /verif'%work,shell=True,cwd='/verif',env=ENV,capture_output=True,text=True)
-        alarms=[l for l in (r.stdout+r.stderr).split('\n') if l.startswith('ALARM') or l.startswith('TOOL-ERROR')]
-        rec['verdict']='killed' if (r.returncode!=0 or alarms) else 'SURVIVED'
+        # enclosing function; if it is under contract, try it alone first
+        fn=None
+        for j in range(i,-1,-1):
+            m=re.match(r'^func (?:\((?:\w+ )?\*?(\w+)(?:\[[^\]]*\])?\) )?(\w+)',lines[j])
+            if m: fn=(m.group(1)+'.' if m.group(1) else '')+m.group(2); break
+        pkg='markdown.' if f.startswith('markdown/') else 'main.' if f.startswith('cmd/gtree/') else 'gtree.'
+        tags='tinywasm,verif' if f.startswith('wasm_') else 'verif'
+        alarms=[]; r=None
+        if fn:
+            keys=sorted(k for k in LOCKFUNCS if k==pkg+fn or k.startswith(pkg+fn+'#') or k.startswith(pkg+fn+'['))
+            if keys:
+                q=subprocess.run("/verif/bin/gvc -repo %s -tags %s -trusted /verif/gvc/trusted -funcs '%s'"%(work,tags,','.join(keys)),shell=True,cwd='/verif',env=ENV,capture_output=True,text=True)
+                alarms=['ALARM (function alone) '+l[5:] for l in (q.stdout+q.stderr).split('\n') if l.startswith('FAIL') and 'gtree.treeSimple.mkdir/post#dryrun' not in l]
+        if not alarms:
+            r=subprocess.run('/verif/bin/gvc all -repo %s -verif /verif'%work,shell=True,cwd='/verif',env=ENV,capture_output=True,text=True)
+            alarms=[l for l in (r.stdout+r.stderr).split('\n') if l.startswith('ALARM') or l.startswith('TOOL-ERROR')]
+        rec['verdict']='killed' if ((r is not None and r.returncode!=0) or alarms) else 'SURVIVED'
         rec['alarms']=[a[:160] for a in alarms[:3]]
     open(path,'w').write(orig)
     out.write(json.dumps(rec)+'\n'); out.flush()
